@@ -310,6 +310,28 @@ def run(ctx):
                     paths = list(skew)
                     paths[pos] = bad_file(tmp, ['missing', 'directory', 'corrupt-gzip'][pos % 3], name=f'mbad{pos}')
                     mrecs.append(mode_record(paths, {pos + 1}, conc, workers, single_skew))
+        # files without a single record (zero bytes, plain or gzip): legal inputs whose signature is empty
+        import gzip as _gz0
+        empties = []
+        for nm, blob in (('empty0.fa', b''), ('empty1.fa.gz', _gz0.compress(b'')), ('empty2.fasta.gz', _gz0.compress(b'', mtime=0))):
+            pth = os.path.join(tmp, nm)
+            with open(pth, 'wb') as f:
+                f.write(blob)
+            empties.append(pth)
+        for conc in (None, 'threads', 'processes'):
+            for workers in ([None, 2] if conc else [None]):
+                for pos in (0, nmax // 2, nmax - 1):
+                    paths = list(skew)
+                    paths[pos] = empties[pos % 3]
+                    single_e = list(single_skew)
+                    single_e[pos] = np.asarray([], dtype=single_skew[0].dtype)          # the signature of nothing, by definition
+                    rr = mode_record(paths, set(), conc, workers, single_e)
+                    rr['sizes'] = f'record-less file at {pos}'
+                    mrecs.append(rr)
+                rr = mode_record(empties, set(), conc, workers, [np.asarray([], dtype=single_skew[0].dtype)] * 3)      # only record-less files
+                rr['sigs'] = list(range(1, len(rr['sigs']) + 1)) if rr['outcome'] == 'returned' and all(x == 1 for x in rr['sigs']) else rr['sigs']
+                rr['sizes'] = 'only record-less files'
+                mrecs.append(rr)
         # file-size permutations with fewer workers than files, and more files than CPUs with the default worker count
         perm_dir = os.path.join(tmp, 'perm')
         os.makedirs(perm_dir)
